@@ -44,7 +44,11 @@ def run(ctx):
     ctx.rule = ('real run_once/run_once_ftp with scripted error model, rng and decoder; library codes and random '
                 'binary matrices as user-defined codes; T in 1..%d; every decoder answer shape (bare, None, 16 '
                 'DecodeResult patterns); invalid-parameter stream separately. nontrivial = some non-zero step error '
-                'and (a flip or a non-default answer shape)' % ctx.pick(5, 12))
+                'and (a flip or a non-default answer shape). Histories: one table decoder / error model / rng kept '
+                'through 3..7 runs (run_once / run_once_ftp sequences and app.run / run_ftp loops), errors = base errors '
+                'times stabilizer and logical products so that syndromes repeat while verdicts change, the decoder hands '
+                'back the very same DecodeResult / arrays on a repeated syndrome; all owned objects audited after every '
+                'run; results re-read at the end of the history' % ctx.pick(5, 12))
     ctx.props_obligations()
     lib = [FiveQubitCode(), SteaneCode(), PlanarCode(2, 2), PlanarCode(3, 2), ToricCode(2, 3), RotatedPlanarCode(3, 3)]
     if not ctx.quick:
@@ -272,6 +276,10 @@ def run(ctx):
                 if got != ((0.0 if T == 1 else p_) if q_ is None else q_):
                     ctx.violation('q-default', 'documented measurement probability default not applied',
                                   {'T': T, 'p': p_, 'q': q_, 'got': got})
+
+    # ---- operation histories with collaborator-owned objects (table decoders, repeated syndromes) ----
+    from harness.c01_extra import run_histories
+    run_histories(ctx, lib, kern)
 
     out = ctx.model('c01', req)
     for (fn, impl), m, line in zip(exp, out, req):
